@@ -24,5 +24,6 @@ Inductive pstmt :=
 | SWhile (cond : pexpr) (body : list pstmt)
 | STry (body handler : list pstmt)                       (* try { body } catch (...) { handler } *)
 | SReturn (e : pexpr)
+| SAssert (c : pexpr)                                    (* C02: MOMO_ASSERT(c) / MOMO_CHECK(c): an obligation, not a no-op *)
 | SContinue | SBreak | SThrow
 | SOther (kind : string).
